@@ -688,9 +688,43 @@ func (w *w1World) checkClientLog(cl *w1SimClient) {
 						}
 					}
 				}
+				// the recorded early-push finding is about publications WITHOUT offset (the
+				// offset-less path of writePublication does not look at flagSubscribed); a
+				// publication with an offset written before a client-side subscribe / connect
+				// reply is a different matter
+				if f.Kind == "push:pub" && f.Pub != nil && f.Pub.Offset > 0 && strings.Contains(sig, "before the subscription started") && !strings.Contains(sig, "push:sub") {
+					sig += " [publication with offset]"
+				}
 				sig += w.rnq()
 				if w.sc.Cfg.Batch && chHas(f.Ch, 'b') {
-					sig += " [per-channel batching]"
+					// the recorded batching finding is the race between a publication being
+					// added to the per-channel writer and the unsubscribe's delWriter; a
+					// publication whose publish call had returned before the end of the
+					// subscription even began was buffered long before and must be dropped
+					racing := true
+					// (with reply-without-queue the reply overtakes pushes that had already
+					// left the per-channel writer for the connection's queue: not separable)
+					if f.Kind == "push:pub" && prev != nil && f.Pub != nil && w.sc.Cfg.DelayPm == 0 && w.rnq() == "" {
+						racing = false
+						beginEnd := w.endBeginSeq(cl, prev, cmdByID)
+						known := false
+						for _, pr := range w.pubs {
+							if pr.Ch == f.Ch && pr.Data == f.Pub.Data {
+								known = true
+								if beginEnd == 0 || pr.RetSeq == 0 || pr.RetSeq > beginEnd {
+									racing = true
+								}
+							}
+						}
+						if !known {
+							racing = true
+						}
+					}
+					if racing {
+						sig += " [per-channel batching]"
+					} else {
+						sig += " [per-channel batching: buffered before the end began]"
+					}
 				}
 				s.Violate("C10", "push-outside-subscription", sig, "client %d received %s for %s outside a subscription (frame seq %d): %s", cl.idx, f.Kind, f.Ch, f.Seq, sig)
 				continue
@@ -1308,6 +1342,33 @@ func (w *w1World) unsubOverlapsSubStart(cl *w1SimClient, ch string) bool {
 		}
 	}
 	return false
+}
+
+// endBeginSeq: when did the end of the subscription instance begin, as far as the harness
+// knows (invocation of the client's unsubscribe command that was answered by the ending
+// reply, or of the earliest server-side unsubscribe / disconnect call for the connection
+// that was in progress when the ending push was written)? 0 = unknown.
+func (w *w1World) endBeginSeq(cl *w1SimClient, in *w1Instance, cmdByID map[uint32]*w1Cmd) int64 {
+	// the earliest unsubscribe of the channel for this connection - its own command or a
+	// server-side call - that began after the instance started and before its end was seen
+	var first int64
+	take := func(x int64) {
+		if x > in.originSeq && x < in.endSeq && (first == 0 || x < first) {
+			first = x
+		}
+	}
+	for _, c := range cl.cmds {
+		if c.Kind == "unsubscribe" && c.Ch == in.ch {
+			take(c.Seq)
+		}
+	}
+	for _, op := range w.nodeOps {
+		mine := (strings.HasPrefix(op.Kind, "n") && op.User == cl.spec.User) || (strings.HasPrefix(op.Kind, "c") && op.C == cl.idx)
+		if mine && (op.Kind == "nunsub" || op.Kind == "cunsub") && (op.Ch == in.ch || op.Ch == "") {
+			take(op.Seq)
+		}
+	}
+	return first
 }
 
 // endedDuringSubscribeCallback: did an unsubscribe of ch for this connection (own command,
